@@ -91,6 +91,7 @@ func init() {
 			}
 			ev["out"] = B(r.Bytes())
 			ev["big"] = B(r.ToBigInt().Bytes())
+			ev["raw"] = rawBE(r.GetRaw())
 		} else {
 			x, y := mustN(a), new(fiat.SM2ScalarElement)
 			if b != nil {
@@ -129,6 +130,8 @@ func init() {
 			}
 			ev["out"] = B(r.Bytes())
 			ev["big"] = B(r.ToBigInt().Bytes())
+			raw := r.VerifRaw()
+			ev["raw"] = rawBE(&raw)
 		}
 	})
 	register("fiat.pred", func(ctx *Ctx, c Cmd, ev Ev) {
